@@ -165,7 +165,30 @@ Inductive case :=
 (* Go Decrypt of a TAMPERED document derived from a valid one with plaintext [p]: the
    bytes (None = long document, oracle only), table, key name, script, observation *)
 | CTamper (p : pgen) (d : option (list N)) (tbl : utable) (optkn : list N) (sc : list sitem)
-          (obs : dobs).
+          (obs : dobs)
+(* The unexported pure helpers of the package, called directly (hook file
+   schemes/enc/v1/verif_hooks.go) on argument values no document of practical size reaches:
+   nonceForSegment(prefix, num, last) = obs *)
+| CHNonce (np : list N) (num : N) (last : bool) (obs : list N)
+(* two calls of nonceForSegment at positions (n1, l1) and (n2, l2) *)
+| CHNoncePair (np : list N) (n1 : N) (l1 : bool) (o1 : list N) (n2 : N) (l2 : bool) (o2 : list N)
+(* importFileKey(fk, np): header key and payload key *)
+| CHKeys (fk np hk pk : list N)
+(* SignHeader(manifest line) under fk *)
+| CHHeader (fk man obs : list N)
+(* EncryptSegment(data, num, last) under (fk, np): the bytes written, None = error *)
+| CHSeal (cph : cipher) (fk np data : list N) (num : N) (last : bool) (obs : option (list N))
+(* DecryptSegment at position (num, last) of the ciphertext [c] that an independent encoder made
+   for plaintext [p] at position (n0, l0), under (fk, np): the bytes written, None = error *)
+| CHOpen (cph : cipher) (fk np p : list N) (n0 : N) (l0 : bool) (c : list N)
+         (num : N) (last : bool) (obs : option (list N)).
+
+Definition opt_eqb (a b : option (list N)) : bool :=
+  match a, b with
+  | None, None => true
+  | Some x, Some y => eqb_listN x y
+  | _, _ => false
+  end.
 
 Definition model_agrees (c : case) : bool :=
   match c with
@@ -183,6 +206,16 @@ Definition model_agrees (c : case) : bool :=
       dec_agrees false
         (decrypt_stream_x concrete Fixed Fixed SEG HDR (unwrap_of tbl) optkn (mk_script sc bs)) obs
   | CTamper _ None _ _ _ _ => true
+  | CHNonce np num last obs => eqb_listN (nonce_for_segment np num last) obs
+  | CHNoncePair np n1 l1 o1 n2 l2 o2 =>
+      eqb_listN (nonce_for_segment np n1 l1) o1 && eqb_listN (nonce_for_segment np n2 l2) o2
+  | CHKeys fk np hk pk =>
+      eqb_listN (header_key concrete fk) hk && eqb_listN (payload_key concrete fk np) pk
+  | CHHeader fk man obs => eqb_listN (sign_header concrete fk man) obs
+  | CHSeal cph fk np data num last obs =>
+      opt_eqb (encrypt_segment concrete cph (payload_key concrete fk np) np data num last) obs
+  | CHOpen cph fk np _ _ _ c num last obs =>
+      opt_eqb (decrypt_segment concrete cph (payload_key concrete fk np) np c num last) obs
   end.
 
 (* What the documentation promises for Decrypt of a valid document with manifest [m]: the key
@@ -255,6 +288,34 @@ Definition oracle (c : case) : bool :=
           (Nat.leb n (length pb)) && obytes_match (firstn n pb) oout
           && tamper_oracle pb (firstn n pb) (sstatus_eqb st SClean) (sitems_fail sc)
       end
+  (* README: nonce = nonce_prefix (7 bytes) || i (32-bit big-endian) || last_segment *)
+  | CHNonce np num last obs =>
+      if Nat.eqb (length np) 7 then eqb_listN (spec_nonce np num last) obs else true
+  (* C02: segments at different positions, or of different finality, never share a nonce *)
+  | CHNoncePair np n1 l1 o1 n2 l2 o2 =>
+      ((n1 =? n2)%N && Bool.eqb l1 l2) || negb (eqb_listN o1 o2)
+  (* README: mac-key / payload-key derivations *)
+  | CHKeys fk np hk pk =>
+      eqb_listN (spec_mac_key concrete fk) hk && eqb_listN (spec_payload_key concrete fk np) pk
+  | CHHeader fk man obs => eqb_listN (spec_header concrete fk man) obs
+  (* README: segment = AEAD(payload key, nonce(i, last), chunk); never empty *)
+  | CHSeal cph fk np data num last obs =>
+      match data, obs with
+      | [], None => true
+      | _ :: _, Some w =>
+          if Nat.eqb (length np) 7
+          then eqb_listN (seal concrete cph (spec_payload_key concrete fk np) (spec_nonce np num last) data) w
+          else true
+      | _, _ => false
+      end
+  (* C01: a segment made from the README opens at its own position to its plaintext;
+     C02: it opens at NO other position and with no other finality *)
+  | CHOpen cph fk np p n0 l0 c num last obs =>
+      eqb_listN c (seal concrete cph (spec_payload_key concrete fk np) (spec_nonce np n0 l0) p)
+      && match obs with
+         | Some x => (n0 =? num)%N && Bool.eqb l0 last && eqb_listN x p
+         | None => negb ((n0 =? num)%N && Bool.eqb l0 last) || is_nil p
+         end
   end.
 
 (* 0 = agree and oracle holds; 1 = model and implementation differ; 2 = the implementation's
